@@ -67,3 +67,38 @@ Qed.
 (* non-vacuity: a concrete image meeting the hypotheses *)
 Example R_example_wf : wf 3 2 [[1; 2]; [3; 4]; [5; 6]] /\ (1 <= 3)%nat /\ (1 <= 2)%nat.
 Proof. repeat split; try lia. repeat constructor. Qed.
+
+(* pixel formula for every admissible mask: mean over the enabled quadrants *)
+Notation mean2R := (mean2 0 Rplus Rdivn).
+Notation mean4R := (mean4 0 Rplus Rdivn).
+
+Lemma R_sym_px_0 (n m : nat) (IM S : Rimg) (u : mask) (i j : nat) :
+  wf n m IM -> (1 <= n)%nat -> (1 <= m)%nat ->
+  symR ax_0 u Average IM = Ok S -> (i < n)%nat -> (j < m)%nat ->
+  px 0 S i j =
+    if (i <? n / 2)%nat
+    then (if (j <? m / 2)%nat then mean2R (u0 u) (u1 u) (px 0 IM i (m - 1 - j)) (px 0 IM i j)
+          else mean2R (u0 u) (u1 u) (px 0 IM i j) (px 0 IM i (m - 1 - j)))
+    else (if (j <? m / 2)%nat then mean2R (u2 u) (u3 u) (px 0 IM i j) (px 0 IM i (m - 1 - j))
+          else mean2R (u2 u) (u3 u) (px 0 IM i (m - 1 - j)) (px 0 IM i j)).
+Proof. intros H Hn Hm. apply (@sym_px_0 _ 0 Rplus Rdivn n m IM H Hn Hm). Qed.
+
+Lemma R_sym_px_1 (n m : nat) (IM S : Rimg) (u : mask) (i j : nat) :
+  wf n m IM -> (1 <= n)%nat -> (1 <= m)%nat ->
+  symR ax_1 u Average IM = Ok S -> (i < n)%nat -> (j < m)%nat ->
+  px 0 S i j =
+    if (j <? m / 2)%nat
+    then (if (i <? n / 2)%nat then mean2R (u1 u) (u2 u) (px 0 IM i j) (px 0 IM (n - 1 - i) j)
+          else mean2R (u1 u) (u2 u) (px 0 IM (n - 1 - i) j) (px 0 IM i j))
+    else (if (i <? n / 2)%nat then mean2R (u0 u) (u3 u) (px 0 IM i j) (px 0 IM (n - 1 - i) j)
+          else mean2R (u0 u) (u3 u) (px 0 IM (n - 1 - i) j) (px 0 IM i j)).
+Proof. intros H Hn Hm. apply (@sym_px_1 _ 0 Rplus Rdivn n m IM H Hn Hm). Qed.
+
+Lemma R_sym_px_both (n m : nat) (IM S : Rimg) (a : axis) (u : mask) (i j : nat) :
+  wf n m IM -> (1 <= n)%nat -> (1 <= m)%nat -> In a both_spellings ->
+  symR a u Average IM = Ok S -> (i < n)%nat -> (j < m)%nat ->
+  px 0 S i j = mean4R u (px 0 IM (Nat.min i (n - 1 - i)) (Nat.max j (m - 1 - j)))
+                        (px 0 IM (Nat.min i (n - 1 - i)) (Nat.min j (m - 1 - j)))
+                        (px 0 IM (Nat.max i (n - 1 - i)) (Nat.min j (m - 1 - j)))
+                        (px 0 IM (Nat.max i (n - 1 - i)) (Nat.max j (m - 1 - j))).
+Proof. intros H Hn Hm Ha HS Hi Hj. apply (@sym_px_both _ 0 Rplus Rdivn n m IM H Hn Hm a u S i j Ha HS Hi Hj). Qed.
